@@ -245,8 +245,43 @@ fn main() {
   let rep = Reporter::new("C01", args.clone());
   let st = Stats::default();
   let samples = Samples::new(10);
-  if args.replay.is_some() {
-    println!("C01 replay: rerun the tier; replay files carry the full case (matcher, source, both result lists)");
+  if let Some(p) = &args.replay {
+    // pattern and rule cases are re-evaluated; exit 1 if find_all still differs from brute force
+    let v: Value = serde_json::from_str(&std::fs::read_to_string(p).unwrap_or_else(|e| machinery(&format!("replay file: {e}")))).unwrap_or_else(|e| machinery(&format!("replay file: {e}")));
+    let case = &v["case"];
+    let spec = spec_by_name(case["lang"].as_str().unwrap_or("")).unwrap_or_else(|| machinery("replay: unknown language"));
+    let src = case["src"].as_str().unwrap_or("");
+    let g = spec.lang.ast_grep(src);
+    let r = g.root();
+    let m = &case["matcher"];
+    let run = |mm: &dyn Fn() -> (Vec<Rg>, Vec<Rg>, bool)| {
+      let (want, got, kinds_ok) = mm();
+      println!("source: {src:?}\nmatcher: {m}\nbrute force (per-node match): {want:?}\nfind_all:                     {got:?}\nevery matching node's kind is in potential_kinds: {kinds_ok}");
+      std::process::exit(if want == got && kinds_ok { 0 } else { 1 });
+    };
+    fn both<M: Matcher<SupportLang>>(m: &M, r: &ast_grep_core::Node<D>) -> (Vec<Rg>, Vec<Rg>, bool) {
+      let want = ref_find(m, r);
+      let got: Vec<Rg> = r.find_all(m).map(|nm| rg(nm.get_node())).collect();
+      let ok = match m.potential_kinds() {
+        Some(k) => want.iter().all(|w| k.contains(w.1 as usize)),
+        None => true,
+      };
+      (want.iter().map(|w| w.2).collect(), got, ok)
+    }
+    if let Some(pt) = m["pattern"].as_str() {
+      let p = Pattern::try_new(pt, spec.lang).unwrap_or_else(|e| machinery(&format!("replay: pattern: {e}"))).with_strictness(strictness(m["strictness"].as_str().unwrap_or("smart")));
+      run(&|| both(&p, &r));
+    } else if let Some(k) = m["kind"].as_str() {
+      let km = KindMatcher::new(k, spec.lang);
+      run(&|| both(&km, &r));
+    } else if m.get("context").is_some() {
+      let p = Pattern::contextual(m["context"].as_str().unwrap(), m["selector"].as_str().unwrap(), spec.lang).unwrap_or_else(|e| machinery(&format!("replay: {e}")));
+      run(&|| both(&p, &r));
+    } else if m.is_object() && m.get("doc").is_none() {
+      let core = load_core_json(&json!({"rule": m}), spec.lang).unwrap_or_else(|e| machinery(&format!("replay: rule: {e:?}")));
+      run(&|| both(&core, &r));
+    }
+    println!("C01 replay: this case class (utility registration order / CombinedScan subset) is replayed by rerunning the tier; the file carries the full case");
     std::process::exit(0);
   }
   let plan: Vec<(&str, usize, usize)> = if args.thorough() {
@@ -488,6 +523,53 @@ fn main() {
     samples.offer(|| json!({"lang": lang, "pattern": pats.get(pats.len() / 2).map(|p| p.0.clone()), "rule": rules.get(rules.len() / 2).map(|r| r.to_json()), "utils_doc": docs[0].core_json(), "combined_pool_rule": serde_json::from_str::<Value>(&pool_yaml[5]).unwrap()}));
     per_lang.push(json!({"lang": lang, "L": l, "trees": ts.len(), "L_rules": l_rules, "trees_rules": ts_small.len(),
       "patterns": n_pats, "contextual_patterns": n_ctx, "rule_cores": n_rules, "util_docs": docs.len(), "combined_subsets": subsets.len()}));
+  }
+  // ---- every OTHER language: patterns only (accepted token strings <= 2 and cuts), 5 strictness
+  // levels, on every tree of <= l_all tokens. Grammar-specific pattern shapes (a pattern that is
+  // one ERROR leaf, aliased kinds ...) live here.
+  let l_all = if args.thorough() { 3 } else { 2 };
+  let planned: Vec<&str> = per_lang.iter().filter_map(|p| p["lang"].as_str().map(|s| s.to_string())).map(|s| &*Box::leak(s.into_boxed_str())).collect();
+  for spec in vcore::langs::SPECS {
+    if planned.contains(&spec.name) {
+      continue;
+    }
+    let lang = spec.name;
+    let ts = trees(spec, l_all);
+    let (alpha, _) = accepted_patterns(spec, 7, 2, |_, _| {});
+    let mut texts: BTreeSet<String> = alpha.iter().map(|p| p.text.clone()).collect();
+    for (_, g) in &ts {
+      let mut nodes = vec![];
+      all_nodes(&g.root(), &mut nodes);
+      for n in &nodes {
+        if has_error(n) || !n.is_named() || n.range().is_empty() {
+          continue;
+        }
+        for c in cuts_of(n, 1) {
+          if c.text.len() <= 30 {
+            texts.insert(c.text);
+          }
+        }
+      }
+    }
+    let pats: Vec<(String, Pattern<SupportLang>)> = texts
+      .into_iter()
+      .filter_map(|t| {
+        let l2 = spec.lang;
+        let t2 = t.clone();
+        let p = guarded(move || Pattern::try_new(&t2, l2)).ok()?.ok()?;
+        Some((t, p))
+      })
+      .collect();
+    pats.par_iter().for_each(|(text, base)| {
+      for sname in STRICTNESS {
+        let p = base.clone().with_strictness(strictness(sname));
+        let c = Case { rep: &rep, st: &st, lang, class: pattern_class(&p, sname), desc: json!({"pattern": text, "strictness": sname}) };
+        for (src, g) in &ts {
+          check_matcher(&c, &p, src, g, *sname == "smart");
+        }
+      }
+    });
+    per_lang.push(json!({"lang": lang, "L": l_all, "trees": ts.len(), "patterns": pats.len(), "patterns_only": true}));
   }
   let orders = orders_seen.lock().unwrap();
   let orders_json: Value = orders
